@@ -1,59 +1,79 @@
 (* C09: whole formats — any number of conversion specifications (d i o u x X c s,
-   mixed) separated by literal text: sprintf equals the concatenation of what C
-   prints for each of them, arguments taken in order. *)
+   and e E f g G of non-finite values, mixed) separated by literal text: sprintf
+   equals the concatenation of what C prints for each of them, arguments taken in
+   order. *)
 From Verif Require Import Lib.Base Lib.Dyadic Lib.Utf8 Model.Printf
-  Proofs.PrintfSpec Proofs.PrintfBase Proofs.PrintfInt Proofs.PrintfDir
+  Proofs.PrintfSpec Proofs.PrintfBase Proofs.PrintfInt Proofs.PrintfDir Proofs.PrintfScan
   Proofs.PrintfSprintf Proofs.PrintfParse Proofs.PrintfStr.
 
-(* one conversion specification with the literal text before it, the values of
-   its '*' arguments, its AWK arguments, the converted Go argument and the C argument *)
 Record ditem : Type := mkItem {
   it_pre : bytes; it_d : dir; it_wv : Z; it_pv : Z;
   it_aw : value; it_ap : value; it_a : value; it_g : garg; it_c : carg }.
+
+Definition it_verb (it : ditem) : Z := go_conv_byte (d_conv (it_d it)).
+Definition it_eff (it : ditem) : dir := eff_dir (it_d it) (it_pv it).
 
 Definition fmt_of (items : list ditem) (post : bytes) : bytes :=
   fold_right (fun it acc => it_pre it ++ render (it_d it) ++ acc) post items.
 Definition gofmt_of (items : list ditem) (post : bytes) : bytes :=
   fold_right (fun it acc => it_pre it ++ go_render (it_d it) ++ acc) post items.
+(* the format after sprintf has cut out the ".*" of negative '*' precisions *)
+Definition patched_of (items : list ditem) (post : bytes) : bytes :=
+  fold_right (fun it acc => it_pre it ++ (37 :: tail_of (it_eff it) (it_verb it)) ++ acc) post items.
 Definition tys_of (items : list ditem) : list ty :=
   fold_right (fun it acc => (dir_tys (it_d it) ++ [conv_ty (d_conv (it_d it))]) ++ acc) [] items.
+Fixpoint stars_of (items : list ditem) (pos : Z) : list Z :=
+  match items with
+  | [] => []
+  | it :: r => dir_stars (it_d it) (pos + zlen (it_pre it) + 1)
+               ++ stars_of r (pos + zlen (it_pre it) + zlen (go_render (it_d it)))
+  end.
 Definition args_of (items : list ditem) (extra : list value) : list value :=
   fold_right (fun it acc => args_for (it_d it) (it_aw it) (it_ap it) (it_a it) acc) extra items.
+Definition it_gargs (it : ditem) : list garg :=
+  star_gargs (it_eff it) (it_wv it) (eff_pv (it_d it) (it_pv it)) ++ [it_g it].
 Definition gargs_of (items : list ditem) : list garg :=
-  fold_right (fun it acc => (star_gargs (it_d it) (it_wv it) (it_pv it) ++ [it_g it]) ++ acc) [] items.
+  fold_right (fun it acc => it_gargs it ++ acc) [] items.
 Definition expected (chars : bool) (items : list ditem) (post : bytes) : bytes :=
   fold_right (fun it acc => it_pre it ++ c_directive chars (it_d it) (it_wv it) (it_pv it) (it_c it) ++ acc) post items.
 
 (* an item on which the formatter core agrees with C *)
 Definition item_ok (chars : bool) (ffmt : fnum -> res bytes) (it : ditem) : Prop :=
-  wf_dir (it_d it) = true /\ no_pct (it_pre it) = true /\ in_lim (it_d it) (it_wv it) (it_pv it) /\
-  (d_width (it_d it) = WStar -> f2i64 (v_num (it_aw it)) = it_wv it) /\
+  wf_dir (it_d it) = true /\ no_pct (it_pre it) = true /\ lim (it_d it) (it_wv it) (it_pv it) /\
+  (d_width (it_d it) = WStar -> conv_arg chars ffmt TyD (it_aw it) = Ok (GInt (it_wv it))) /\
   (d_prec (it_d it) = PrStar -> f2i64 (v_num (it_ap it)) = it_pv it) /\
   conv_arg chars ffmt (conv_ty (d_conv (it_d it))) (it_a it) = Ok (it_g it) /\
-  forall f, st_matches f (resolve (it_d it) (it_wv it) (it_pv it)) ->
-    print_arg f (it_g it) (go_conv_byte (d_conv (it_d it)))
-    = Ok (c_directive chars (it_d it) (it_wv it) (it_pv it) (it_c it)).
+  forall f, st_matches f (resolve (it_eff it) (it_wv it) (eff_pv (it_d it) (it_pv it))) ->
+    print_arg f (it_g it) (it_verb it) = Ok (c_directive chars (it_d it) (it_wv it) (it_pv it) (it_c it)).
 
 (* ---- parsing ---- *)
 Lemma parse_items chars ffmt items post : Forall (item_ok chars ffmt) items -> no_pct post = true ->
-  pft PLit (fmt_of items post) = Ok (gofmt_of items post, tys_of items).
+  forall pos, pft PLit pos (fmt_of items post) = Ok (gofmt_of items post, tys_of items, stars_of items pos).
 Proof.
-  intros H Hpost. induction H as [|it r Hit Hr IH]; cbn [fmt_of gofmt_of tys_of fold_right].
+  intros H Hpost. induction H as [|it r Hit Hr IH]; intros pos; cbn [fmt_of gofmt_of tys_of stars_of fold_right].
   - apply pft_lit. exact Hpost.
   - destruct Hit as (Hwf & Hpre & _).
     fold (fmt_of r post). fold (gofmt_of r post). fold (tys_of r).
-    rewrite (pft_lit_app _ _ Hpre).
-    destruct (run_fmtch (it_d it) Hwf) as [Hrun Htys].
-    assert (E : render (it_d it) ++ fmt_of r post = 37 :: run_of (it_d it) ++ conv_byte (d_conv (it_d it)) :: fmt_of r post).
-    { unfold render, run_of. cbn [app]. rewrite <- !app_assoc. reflexivity. }
-    rewrite E. cbn [pft]. change (37 =? 37) with true. cbv iota.
-    rewrite (pft_pct_run (run_of (it_d it)) _ _ _ _ Hrun (verb_info_conv _) (conv_byte_not_fmtch _)).
-    rewrite IH. unfold cons_out. rewrite Htys. f_equal. f_equal.
-    + unfold go_render, tail_of, run_of. cbn [app]. rewrite <- !app_assoc. reflexivity.
-    + cbn [app]. rewrite <- app_assoc. reflexivity.
+    rewrite (pft_lit_app _ _ _ Hpre). rewrite render_tail. cbn [app pft]. change (37 =? 37) with true. cbv iota.
+    rewrite cons_out_prepend. rewrite (pft_dir _ (it_d it) _ Hwf). rewrite IH. cbn [prepend]. unfold go_render.
+    cbn [app]. rewrite zlen_cons.
+    replace (pos + zlen (it_pre it) + (1 + zlen (go_tail (it_d it)))) with (pos + zlen (it_pre it) + 1 + zlen (go_tail (it_d it))) by lia.
+    reflexivity.
 Qed.
 
-(* ---- argument conversion ---- *)
+(* ---- argument conversion, with the format being patched ---- *)
+Definition prefix_gargs (gs : list garg) (r : res (bytes * list garg)) : res (bytes * list garg) :=
+  match r with Ok (fm, l) => Ok (fm, gs ++ l) | Err m => Err m | Panic => Panic | Unmod => Unmod end.
+
+Lemma cons_arg_prefix g r : cons_arg g r = prefix_gargs [g] r.
+Proof. destruct r as [[fm l]| | |]; reflexivity. Qed.
+
+Lemma prefix_prefix a b r : prefix_gargs a (prefix_gargs b r) = prefix_gargs (a ++ b) r.
+Proof. destruct r as [[fm l]| | |]; cbn [prefix_gargs]; try reflexivity. rewrite <- app_assoc. reflexivity. Qed.
+
+Lemma prefix_nil r : prefix_gargs [] r = r.
+Proof. destruct r as [[fm l]| | |]; reflexivity. Qed.
+
 Lemma index_app_skip {A} (p l : list A) i : 0 <= i -> index (p ++ l) (zlen p + i) = index l i.
 Proof.
   intros Hi. unfold index. rewrite zlen_app. pose proof (zlen_nonneg p) as Hp.
@@ -66,75 +86,205 @@ Proof.
   rewrite nth_error_app2 by lia. replace (length p + Z.to_nat i - length p)%nat with (Z.to_nat i) by lia. reflexivity.
 Qed.
 
-Lemma conv_args_shift chars ffmt ts : forall p l i, 0 <= i ->
-  conv_args chars ffmt ts (p ++ l) (zlen p + i) = conv_args chars ffmt ts l i.
+Lemma conv_args_one chars ffmt cv a g TS rest i fm st rm :
+  conv_arg chars ffmt (conv_ty cv) a = Ok g -> index rest i = Ok a ->
+  conv_args chars ffmt (conv_ty cv :: TS) rest i fm st rm
+  = prefix_gargs [g] (conv_args chars ffmt TS rest (i + 1) fm st rm).
 Proof.
-  induction ts as [|t r IH]; intros p l i Hi; cbn [conv_args]; [reflexivity|].
-  rewrite index_app_skip by exact Hi. replace (zlen p + i + 1) with (zlen p + (i + 1)) by lia.
-  rewrite IH by lia. reflexivity.
+  intros Hg Hi. rewrite <- cons_arg_prefix. cbn [conv_args]. rewrite Hi. cbn [rbind].
+  destruct (conv_ty cv) eqn:ET; try (rewrite Hg; reflexivity). exfalso. exact (conv_ty_not_p _ ET).
 Qed.
 
-Lemma conv_args_app chars ffmt t1 : forall t2 args i,
-  conv_args chars ffmt (t1 ++ t2) args i
-  = (do g1 <- conv_args chars ffmt t1 args i;
-     do g2 <- conv_args chars ffmt t2 args (i + zlen t1); Ok (g1 ++ g2)).
+(* the '*' precision in the middle of a format: [A'] is the (already patched) text before its '.' *)
+Lemma conv_args_prec_mid chars ffmt cv ap pv TS (A' X : bytes) off ST rm i rest :
+  f2i64 (v_num ap) = pv -> index rest i = Ok ap -> off - rm = zlen A' ->
+  conv_args chars ffmt (TyP :: conv_ty cv :: TS) rest i (A' ++ 46 :: 42 :: X) (off :: ST) rm
+  = if (pv <? 0) && negb (is_float_conv cv)
+    then conv_args chars ffmt (conv_ty cv :: TS) rest (i + 1) (A' ++ X) ST (rm + 2)
+    else prefix_gargs [GInt (if (pv <? 0) && is_float_conv cv then 6 else pv)]
+           (conv_args chars ffmt (conv_ty cv :: TS) rest (i + 1) (A' ++ 46 :: 42 :: X) ST rm).
 Proof.
-  induction t1 as [|t r IH]; intros t2 args i.
-  - cbn [app conv_args rbind]. rewrite zlen_nil, Z.add_0_r.
-    destruct (conv_args chars ffmt t2 args i); reflexivity.
-  - cbn [app conv_args]. destruct (index args i) as [a| | |]; cbn [rbind]; try reflexivity.
-    destruct (conv_arg chars ffmt t a) as [g| | |]; cbn [rbind]; try reflexivity.
-    rewrite IH. rewrite zlen_cons. replace (i + (1 + zlen r)) with (i + 1 + zlen r) by lia.
-    destruct (conv_args chars ffmt r args (i + 1)) as [g1| | |]; cbn [rbind]; try reflexivity.
-    destruct (conv_args chars ffmt t2 args (i + 1 + zlen r)) as [g2| | |]; cbn [rbind]; reflexivity.
+  intros Hp Hi Hoff. rewrite conv_args_p_step. rewrite Hi. cbn [rbind]. cbv zeta. rewrite Hp.
+  rewrite <- (conv_ty_float cv). rewrite <- !cons_arg_prefix.
+  destruct (pv <? 0) eqn:EN; cbn [andb]; [|reflexivity].
+  destruct (conv_ty cv) eqn:ET; try (exfalso; exact (conv_ty_not_p _ ET)); cbn [negb];
+    try (rewrite Hoff; rewrite slice_prefix; cbn [rbind];
+         replace (A' ++ 46 :: 42 :: X) with ((A' ++ [46; 42]) ++ X) by (rewrite <- app_assoc; reflexivity);
+         replace (zlen A' + 2) with (zlen (A' ++ [46; 42])) by (rewrite zlen_app; reflexivity);
+         rewrite slice_suffix; cbn [rbind]; reflexivity).
+  reflexivity.
+Qed.
+
+Definition it_cut (it : ditem) : Z :=
+  match d_prec (it_d it) with
+  | PrStar => if (it_pv it <? 0) && negb (is_float_conv (d_conv (it_d it))) then 2 else 0
+  | _ => 0
+  end.
+
+Lemma eff_len it : zlen (37 :: tail_of (it_eff it) (it_verb it)) + it_cut it = zlen (go_render (it_d it)).
+Proof.
+  unfold it_eff, it_verb, it_cut, go_render, go_tail, tail_of, eff_dir, set_dprec. destruct (it_d it) as [fl w p cv].
+  cbn [d_flags d_width d_prec d_conv]. destruct p as [|ds|]; cbn [render_p has_p d_flags d_width d_prec d_conv].
+  - unfold ins. rewrite andb_true_r. destruct (is_g cv); cbn [d_flags d_width d_prec d_conv render_p]; zl; lia.
+  - rewrite ins_true. zl. lia.
+  - rewrite ins_true. destruct ((it_pv it <? 0) && negb (is_float_conv cv)); cbn [d_flags d_width d_prec d_conv render_p]; zl; lia.
+Qed.
+
+(* one item in the middle of the loop *)
+Ltac idx_fin :=
+  repeat (rewrite <- ?app_assoc; cbn [app]);
+  first [ reflexivity
+        | match goal with
+          | |- prefix_gargs ?a (conv_args _ _ _ _ ?i1 _ _ _) = prefix_gargs ?b (conv_args _ _ _ _ ?i2 _ _ _) =>
+              replace i1 with i2 by (unfold zlen; cbn [length app]; lia); reflexivity
+          end ].
+
+Lemma conv_item chars ffmt it : item_ok chars ffmt it ->
+  forall TS ST (REST P : bytes) (AV : list value) rm extra,
+  conv_args chars ffmt ((dir_tys (it_d it) ++ [conv_ty (d_conv (it_d it))]) ++ TS)
+            (AV ++ args_for (it_d it) (it_aw it) (it_ap it) (it_a it) extra) (zlen AV)
+            (P ++ it_pre it ++ go_render (it_d it) ++ REST)
+            (dir_stars (it_d it) (zlen P + rm + zlen (it_pre it) + 1) ++ ST) rm
+  = prefix_gargs (it_gargs it)
+      (conv_args chars ffmt TS (AV ++ args_for (it_d it) (it_aw it) (it_ap it) (it_a it) extra)
+         (zlen AV + zlen (dir_tys (it_d it) ++ [conv_ty (d_conv (it_d it))]))
+         (P ++ it_pre it ++ (37 :: tail_of (it_eff it) (it_verb it)) ++ REST) ST (rm + it_cut it)).
+Proof.
+  intros (Hwf & Hpre & Hlim & Hw & Hp & Hg & _) TS ST REST P AV rm extra.
+  unfold it_gargs, it_eff, it_verb, it_cut, go_render, go_tail, dir_tys, dir_stars, args_for, star_gargs,
+    eff_dir, eff_pv, tail_of, w_tys, p_tys, p_stars, set_dprec.
+  destruct (it_d it) as [fl w p cv]. cbn [d_flags d_width d_prec d_conv] in *.
+  set (aw := it_aw it) in *. set (ap := it_ap it) in *. set (a := it_a it) in *. set (g := it_g it) in *.
+  set (wv := it_wv it) in *. set (pv := it_pv it) in *. set (pre := it_pre it) in *.
+  assert (I0 : forall x l, index (AV ++ x :: l) (zlen AV) = Ok x).
+  { intros x l. rewrite <- (Z.add_0_r (zlen AV)). rewrite index_app_skip by lia. apply index_0. }
+  assert (I1 : forall x y l, index (AV ++ x :: y :: l) (zlen AV + 1) = Ok y).
+  { intros x y l. rewrite index_app_skip by lia. apply index_1. }
+  assert (I2 : forall x y z l, index (AV ++ x :: y :: z :: l) (zlen AV + 1 + 1) = Ok z).
+  { intros x y z l. replace (zlen AV + 1 + 1) with (zlen AV + 2) by lia. rewrite index_app_skip by lia. apply index_2. }
+  destruct p as [|ds|]; cbn [render_p has_p app d_prec d_flags d_width d_conv].
+  - (* no precision *)
+    rewrite Z.add_0_r.
+    assert (F : (if is_g cv then mkDir fl w (PrLit [54]) cv else mkDir fl w PrNone cv)
+                = mkDir fl w (if is_g cv then PrLit [54] else PrNone) cv) by (destruct (is_g cv); reflexivity).
+    rewrite !F. cbn [d_flags d_width d_prec d_conv].
+    assert (E : ins cv false = render_p (if is_g cv then PrLit [54] else PrNone)).
+    { unfold ins. rewrite andb_true_r. destruct (is_g cv); reflexivity. }
+    rewrite E.
+    replace (match (if is_g cv then PrLit [54] else PrNone) with PrStar => [GInt pv] | _ => [] end) with (@nil garg)
+      by (destruct (is_g cv); reflexivity).
+    destruct w as [|wds|]; cbn [app render_w].
+    + rewrite (conv_args_one chars ffmt cv a g TS _ _ _ _ _ Hg (I0 _ _)). zl.
+      idx_fin.
+    + rewrite (conv_args_one chars ffmt cv a g TS _ _ _ _ _ Hg (I0 _ _)). zl.
+      idx_fin.
+    + rewrite (conv_args_width chars ffmt _ aw wv _ _ _ _ _ (Hw eq_refl) (I0 _ _)).
+      rewrite (conv_args_one chars ffmt cv a g TS _ _ _ _ _ Hg (I1 _ _ _)).
+      rewrite cons_arg_prefix, prefix_prefix. zl. replace (zlen AV + (1 + (1 + 0))) with (zlen AV + 1 + 1) by lia.
+      idx_fin.
+  - (* literal precision *)
+    rewrite ins_true, Z.add_0_r. cbn [app].
+    destruct w as [|wds|]; cbn [app render_w].
+    + rewrite (conv_args_one chars ffmt cv a g TS _ _ _ _ _ Hg (I0 _ _)). zl.
+      idx_fin.
+    + rewrite (conv_args_one chars ffmt cv a g TS _ _ _ _ _ Hg (I0 _ _)). zl.
+      idx_fin.
+    + rewrite (conv_args_width chars ffmt _ aw wv _ _ _ _ _ (Hw eq_refl) (I0 _ _)).
+      rewrite (conv_args_one chars ffmt cv a g TS _ _ _ _ _ Hg (I1 _ _ _)).
+      rewrite cons_arg_prefix, prefix_prefix. zl. replace (zlen AV + (1 + (1 + 0))) with (zlen AV + 1 + 1) by lia.
+      idx_fin.
+  - (* '*' precision *)
+    rewrite ins_true. cbn [app]. specialize (Hp eq_refl).
+    assert (N : forall (A' : bytes) F O rest i rm0 TS0,
+              F = A' ++ 46 :: 42 :: go_conv_byte cv :: REST -> O - rm0 = zlen A' ->
+              index rest i = Ok ap -> index rest (i + 1) = Ok a ->
+              conv_args chars ffmt (TyP :: conv_ty cv :: TS0) rest i F (O :: ST) rm0
+              = prefix_gargs ((if (pv <? 0) && negb (is_float_conv cv) then []
+                               else [GInt (if (pv <? 0) && is_float_conv cv then 6 else pv)]) ++ [g])
+                  (conv_args chars ffmt TS0 rest (i + 1 + 1)
+                     (A' ++ (if (pv <? 0) && negb (is_float_conv cv) then [] else [46; 42]) ++ go_conv_byte cv :: REST)
+                     ST (rm0 + (if (pv <? 0) && negb (is_float_conv cv) then 2 else 0)))).
+    { intros A' F O rest i rm0 TS0 -> HO Hi Hi1.
+      rewrite (conv_args_prec_mid chars ffmt cv ap pv TS0 A' _ O ST rm0 i rest Hp Hi HO).
+      destruct ((pv <? 0) && negb (is_float_conv cv)).
+      - rewrite (conv_args_one chars ffmt cv a g TS0 _ _ _ _ _ Hg Hi1). reflexivity.
+      - rewrite (conv_args_one chars ffmt cv a g TS0 _ _ _ _ _ Hg Hi1). rewrite prefix_prefix, Z.add_0_r. reflexivity. }
+    destruct w as [|wds|]; cbn [app render_w].
+    + erewrite (N (P ++ pre ++ 37 :: fl));
+        [ | repeat (rewrite <- ?app_assoc; cbn [app]); reflexivity | zl; lia | apply I0 | apply I1 ].
+      zl. replace (zlen AV + (1 + (1 + 0))) with (zlen AV + 1 + 1) by lia.
+      destruct ((pv <? 0) && negb (is_float_conv cv)); cbn [d_flags d_width d_prec d_conv render_w render_p app];
+        idx_fin.
+    + erewrite (N (P ++ pre ++ 37 :: fl ++ wds));
+        [ | repeat (rewrite <- ?app_assoc; cbn [app]); reflexivity | zl; lia | apply I0 | apply I1 ].
+      zl. replace (zlen AV + (1 + (1 + 0))) with (zlen AV + 1 + 1) by lia.
+      destruct ((pv <? 0) && negb (is_float_conv cv)); cbn [d_flags d_width d_prec d_conv render_w render_p app];
+        idx_fin.
+    + rewrite (conv_args_width chars ffmt _ aw wv _ _ _ _ _ (Hw eq_refl) (I0 _ _)).
+      erewrite (N (P ++ pre ++ 37 :: fl ++ [42]));
+        [ | repeat (rewrite <- ?app_assoc; cbn [app]); reflexivity | zl; lia | apply I1 | apply I2 ].
+      rewrite cons_arg_prefix, prefix_prefix. zl. replace (zlen AV + (1 + (1 + (1 + 0)))) with (zlen AV + 1 + 1 + 1) by lia.
+      destruct ((pv <? 0) && negb (is_float_conv cv)); cbn [d_flags d_width d_prec d_conv render_w render_p app];
+        idx_fin.
 Qed.
 
 Lemma args_for_split d aw ap a rest :
   args_for d aw ap a rest = args_for d aw ap a [] ++ rest /\
   zlen (args_for d aw ap a []) = zlen (dir_tys d ++ [conv_ty (d_conv d)]).
 Proof.
-  unfold args_for, dir_tys. destruct (d_width d), (d_prec d); cbn [app]; split; reflexivity.
+  unfold args_for, dir_tys, w_tys, p_tys. destruct (d_width d), (d_prec d); cbn [app]; split; reflexivity.
 Qed.
 
-Lemma conv_items chars ffmt items extra : Forall (item_ok chars ffmt) items ->
-  conv_args chars ffmt (tys_of items) (args_of items extra) 0 = Ok (gargs_of items) /\
-  zlen (tys_of items) <= zlen (args_of items extra).
+Lemma conv_items chars ffmt extra post items : Forall (item_ok chars ffmt) items ->
+  forall (P : bytes) (AV : list value) rm,
+  conv_args chars ffmt (tys_of items) (AV ++ args_of items extra) (zlen AV)
+            (P ++ gofmt_of items post) (stars_of items (zlen P + rm)) rm
+  = Ok (P ++ patched_of items post, gargs_of items).
 Proof.
-  intros H. induction H as [|it r Hit Hr IH]; cbn [tys_of args_of gargs_of fold_right].
-  - split; [reflexivity|]. rewrite zlen_nil. apply zlen_nonneg.
-  - fold (tys_of r). fold (args_of r extra). fold (gargs_of r).
-    destruct Hit as (Hwf & Hpre & Hlim & Hw & Hp & Hg & _). destruct IH as [IH1 IH2].
-    destruct (conv_args_render chars ffmt (it_d it) (it_aw it) (it_ap it) (it_a it) (args_of r extra)
-                (it_wv it) (it_pv it) (it_g it) Hw Hp Hg) as [Hca _].
+  intros H. induction H as [|it r Hit Hr IH]; intros P AV rm;
+    cbn [tys_of args_of gofmt_of patched_of gargs_of stars_of fold_right].
+  - reflexivity.
+  - fold (tys_of r). fold (args_of r extra). fold (gofmt_of r post). fold (patched_of r post). fold (gargs_of r).
+    replace (zlen P + rm + zlen (it_pre it) + 1) with (zlen P + rm + zlen (it_pre it) + 1) by reflexivity.
+    rewrite (conv_item chars ffmt it Hit (tys_of r) _ (gofmt_of r post) P AV rm (args_of r extra)).
     destruct (args_for_split (it_d it) (it_aw it) (it_ap it) (it_a it) (args_of r extra)) as [Hsp Hlen].
-    split.
-    + rewrite conv_args_app. rewrite Hca. cbn [rbind]. rewrite Hsp, <- Hlen.
-      replace (0 + zlen (args_for (it_d it) (it_aw it) (it_ap it) (it_a it) []))
-        with (zlen (args_for (it_d it) (it_aw it) (it_ap it) (it_a it) []) + 0) by lia.
-      rewrite conv_args_shift by lia. rewrite IH1. reflexivity.
-    + rewrite Hsp. rewrite (zlen_app (args_for _ _ _ _ [])), (zlen_app (_ ++ _) (tys_of r)). rewrite Hlen. lia.
+    rewrite Hsp. rewrite app_assoc. rewrite <- Hlen. rewrite <- zlen_app.
+    replace (P ++ it_pre it ++ (37 :: tail_of (it_eff it) (it_verb it)) ++ gofmt_of r post)
+      with ((P ++ it_pre it ++ 37 :: tail_of (it_eff it) (it_verb it)) ++ gofmt_of r post)
+      by (repeat (rewrite <- ?app_assoc; cbn [app]); reflexivity).
+    replace (zlen P + rm + zlen (it_pre it) + zlen (go_render (it_d it)))
+      with (zlen (P ++ it_pre it ++ 37 :: tail_of (it_eff it) (it_verb it)) + (rm + it_cut it))
+      by (pose proof (eff_len it); rewrite !zlen_app; lia).
+    rewrite IH. cbn [prefix_gargs]. repeat (rewrite <- ?app_assoc; cbn [app]). reflexivity.
 Qed.
 
-(* ---- the modelled fmt.Sprintf ---- *)
-Lemma go_items chars ffmt items post : Forall (item_ok chars ffmt) items -> no_pct post = true ->
-  forall fuel, (length (gofmt_of items post) < fuel)%nat ->
-  go_printf fuel (gofmt_of items post) (gargs_of items) = Ok (expected chars items post).
+Lemma tys_args_len items extra : zlen (tys_of items) <= zlen (args_of items extra).
 Proof.
-  intros H Hpost. induction H as [|it r Hit Hr IH]; intros fuel Hf; cbn [gofmt_of gargs_of expected fold_right] in *.
+  induction items as [|it r IH]; cbn [tys_of args_of fold_right]; [rewrite zlen_nil; apply zlen_nonneg|].
+  fold (tys_of r). fold (args_of r extra).
+  destruct (args_for_split (it_d it) (it_aw it) (it_ap it) (it_a it) (args_of r extra)) as [Hsp Hlen].
+  rewrite Hsp. rewrite (zlen_app (args_for _ _ _ _ [])), (zlen_app (_ ++ _) (tys_of r)). rewrite Hlen. lia.
+Qed.
+
+(* ---- the modelled fmt.Sprintf on the patched format ---- *)
+Lemma go_items chars ffmt items post : Forall (item_ok chars ffmt) items -> no_pct post = true ->
+  forall fuel, (length (patched_of items post) < fuel)%nat ->
+  go_printf fuel (patched_of items post) (gargs_of items) = Ok (expected chars items post).
+Proof.
+  intros H Hpost. induction H as [|it r Hit Hr IH]; intros fuel Hf; cbn [patched_of gargs_of expected fold_right] in *.
   - destruct fuel as [|k]; [lia|]. cbn [go_printf]. rewrite (span_lit_all post Hpost). cbn [go_extra].
     rewrite app_nil_r. reflexivity.
-  - fold (gofmt_of r post) in *. fold (gargs_of r). fold (expected chars r post).
+  - fold (patched_of r post) in *. fold (gargs_of r). fold (expected chars r post).
     destruct Hit as (Hwf & Hpre & Hlim & _ & _ & _ & Hpa).
     destruct fuel as [|k]; [lia|].
-    unfold go_render in *.
-    assert (E : it_pre it ++ (37 :: tail_of (it_d it) (go_conv_byte (d_conv (it_d it)))) ++ gofmt_of r post
-              = it_pre it ++ 37 :: (tail_of (it_d it) (go_conv_byte (d_conv (it_d it))) ++ gofmt_of r post)) by reflexivity.
-    rewrite E in *. cbn [go_printf]. rewrite (span_lit_pre _ _ Hpre). rewrite <- app_assoc.
-    change ([it_g it] ++ gargs_of r) with (it_g it :: gargs_of r).
-    destruct (go_directive_render (it_d it) (it_wv it) (it_pv it) (go_conv_byte (d_conv (it_d it))) (it_g it) (gargs_of r)
-                (gofmt_of r post) Hwf Hlim (go_conv_byte_ok _)) as (f & Hst & Hdir).
-    rewrite Hdir. rewrite (Hpa f Hst).
-    rewrite IH.
+    assert (E : it_pre it ++ (37 :: tail_of (it_eff it) (it_verb it)) ++ patched_of r post
+              = it_pre it ++ 37 :: (tail_of (it_eff it) (it_verb it) ++ patched_of r post)) by reflexivity.
+    rewrite E in *. cbn [go_printf]. rewrite (span_lit_pre _ _ Hpre).
+    unfold it_gargs. rewrite <- app_assoc. change ([it_g it] ++ gargs_of r) with (it_g it :: gargs_of r).
+    destruct (eff_wf_lim (it_d it) (it_wv it) (it_pv it) Hwf Hlim) as (Ewf & Elim & _).
+    destruct (go_directive_render (it_eff it) (it_wv it) (eff_pv (it_d it) (it_pv it)) (it_verb it) (it_g it) (gargs_of r)
+                (patched_of r post) Ewf Elim (go_conv_byte_ok _)) as (f & Hst & Hdir).
+    rewrite Hdir. rewrite (Hpa f Hst). rewrite IH.
     + reflexivity.
     + rewrite app_length in Hf. cbn [length] in Hf. rewrite app_length in Hf. lia.
 Qed.
@@ -143,57 +293,53 @@ Theorem sprintf_items chars ffmt items post extra :
   Forall (item_ok chars ffmt) items -> no_pct post = true ->
   sprintf chars ffmt (fmt_of items post) (args_of items extra) = Ok (expected chars items post).
 Proof.
-  intros H Hpost. unfold sprintf, parse_fmt_types. rewrite (parse_items chars ffmt items post H Hpost).
-  destruct (conv_items chars ffmt items extra H) as [Hc Hl].
+  intros H Hpost. unfold sprintf, parse_fmt_types. rewrite (parse_items chars ffmt items post H Hpost 0).
   replace (zlen (tys_of items) >? zlen (args_of items extra)) with false
-    by (symmetry; rewrite Z.gtb_ltb; apply Z.ltb_ge; exact Hl).
-  rewrite Hc. cbn [rbind]. unfold go_sprintf. apply (go_items chars ffmt items post H Hpost). lia.
+    by (symmetry; rewrite Z.gtb_ltb; apply Z.ltb_ge; apply tys_args_len).
+  pose proof (conv_items chars ffmt extra post items H [] [] 0) as C.
+  cbn [app] in C. change (zlen (@nil Z) + 0) with 0 in C. change (zlen (@nil value)) with 0 in C. rewrite C. cbn [rbind fst snd].
+  unfold go_sprintf. apply (go_items chars ffmt items post H Hpost). lia.
 Qed.
 
 (* ---- which items are ok ---- *)
-Lemma star_hyp x v lo hi : awk_int x = Some v -> lo <= v <= hi -> - two63 <= lo -> hi < two63 -> f2i64 x = v.
-Proof. intros H1 H2 H3 H4. apply f2i64_awk_int; [exact H1 | lia]. Qed.
-
 Theorem item_ok_int chars ffmt pre d wv pv aw ap a v :
-  wf_dir d = true -> is_int_conv (d_conv d) = true -> no_pct pre = true -> in_lim d wv pv ->
+  wf_dir d = true -> is_int_conv (d_conv d) = true -> no_pct pre = true -> lim d wv pv ->
   (d_width d = WStar -> awk_int (v_num aw) = Some wv) ->
   (d_prec d = PrStar -> awk_int (v_num ap) = Some pv) ->
-  awk_int (v_num a) = Some v -> - two63 <= v < two63 ->
+  awk_int (v_num a) = Some v ->
+  (conv_ty (d_conv d) = TyU -> - two63 <= v < two64) ->
   int_ok d (resolve d wv pv) v ->
-  item_ok chars ffmt (mkItem pre d wv pv aw ap a
-    (match conv_ty (d_conv d) with TyD => GInt v | _ => GUint (v mod two64) end) (AInt v)).
+  exists g, item_ok chars ffmt (mkItem pre d wv pv aw ap a g (AInt v)).
 Proof.
-  intros Hwf Hic Hpre Hlim Hw Hp Ha Hv Hok. unfold item_ok. cbn [it_pre it_d it_wv it_pv it_aw it_ap it_a it_g it_c].
-  pose proof (f2i64_awk_int _ _ Ha Hv) as Hf.
+  intros Hwf Hic Hpre Hlim Hw Hp Ha Hu Hok.
+  destruct (int_arg_print chars ffmt d wv pv a v Hic Ha Hu Hok) as (g & Hg & Hpr). exists g.
+  assert (Hfl : is_float_conv (d_conv d) = false /\ is_g (d_conv d) = false) by (destruct (d_conv d); try discriminate; split; reflexivity).
+  destruct Hfl as [Hfl Hgg]. destruct (resolve_eff d wv pv Hfl Hgg) as (_ & _ & Eres & _).
+  unfold item_ok, it_eff, it_verb. cbn [it_pre it_d it_wv it_pv it_aw it_ap it_a it_g it_c].
   split; [exact Hwf|]. split; [exact Hpre|]. split; [exact Hlim|]. split; [|split; [|split]].
-  - intros E. apply f2i64_awk_int; [exact (Hw E)|]. destruct Hlim as [L _]. rewrite E in L. unfold two63. lia.
-  - intros E. apply f2i64_awk_int; [exact (Hp E)|]. destruct Hlim as [_ L]. rewrite E in L. unfold two63. lia.
-  - destruct (d_conv d); try discriminate; cbn [conv_ty conv_arg]; rewrite Hf; try reflexivity;
-      rewrite (i64_to_u64_mod v Hv); reflexivity.
-  - intros f Hst. unfold c_directive, int_ok in *.
-    destruct (d_conv d); try discriminate; cbn [conv_ty go_conv_byte print_arg int_verb Z.eqb Pos.eqb orb].
-    + rewrite (fmt_integer_signed f _ v Hst Hok). reflexivity.
-    + rewrite (fmt_integer_signed f _ v Hst Hok). reflexivity.
-    + rewrite (fmt_integer_o f _ v Hst Hok). reflexivity.
-    + rewrite (fmt_integer_u f _ v Hst Hok). reflexivity.
-    + rewrite (fmt_integer_x f _ v Hst Hok). reflexivity.
-    + rewrite (fmt_integer_X f _ v Hst Hok). reflexivity.
+  - intros E. apply conv_arg_d_in_range; [exact (Hw E)|]. destruct Hlim as [L _]. rewrite E in L. unfold two63. lia.
+  - intros E. apply f2i64_awk_int; [exact (Hp E)|]. destruct Hlim as [_ L]. rewrite E in L. unfold two63 in *. lia.
+  - exact Hg.
+  - rewrite Eres. exact Hpr.
 Qed.
 
 Theorem item_ok_s chars ffmt pre d wv pv aw ap a s :
-  wf_dir d = true -> d_conv d = Cs -> c_defined d = true -> no_pct pre = true -> in_lim d wv pv ->
+  wf_dir d = true -> d_conv d = Cs -> c_defined d = true -> no_pct pre = true -> lim d wv pv ->
   (d_width d = WStar -> awk_int (v_num aw) = Some wv) ->
   (d_prec d = PrStar -> awk_int (v_num ap) = Some pv) ->
   v_str ffmt a = Ok s ->
   ascii s = true \/ (d_width d = WNone /\ d_prec d = PrNone) ->
   item_ok chars ffmt (mkItem pre d wv pv aw ap a (GStr s) (AStr s)).
 Proof.
-  intros Hwf Hc Hdef Hpre Hlim Hw Hp Ha Hok. unfold item_ok. cbn [it_pre it_d it_wv it_pv it_aw it_ap it_a it_g it_c].
+  intros Hwf Hc Hdef Hpre Hlim Hw Hp Ha Hok.
+  destruct (resolve_eff d wv pv ltac:(rewrite Hc; reflexivity) ltac:(rewrite Hc; reflexivity)) as (_ & _ & Eres & _).
+  unfold item_ok, it_eff, it_verb. cbn [it_pre it_d it_wv it_pv it_aw it_ap it_a it_g it_c].
   split; [exact Hwf|]. split; [exact Hpre|]. split; [exact Hlim|]. split; [|split; [|split]].
-  - intros E. apply f2i64_awk_int; [exact (Hw E)|]. destruct Hlim as [L _]. rewrite E in L. unfold two63. lia.
-  - intros E. apply f2i64_awk_int; [exact (Hp E)|]. destruct Hlim as [_ L]. rewrite E in L. unfold two63. lia.
+  - intros E. apply conv_arg_d_in_range; [exact (Hw E)|]. destruct Hlim as [L _]. rewrite E in L. unfold two63. lia.
+  - intros E. apply f2i64_awk_int; [exact (Hp E)|]. destruct Hlim as [_ L]. rewrite E in L. unfold two63 in *. lia.
   - rewrite Hc. cbn [conv_ty conv_arg]. rewrite Ha. reflexivity.
-  - intros f Hst. unfold c_directive. unfold c_defined in Hdef. rewrite Hc in *. cbn [go_conv_byte print_arg Z.eqb Pos.eqb orb].
+  - rewrite Eres. intros f Hst. unfold c_directive. unfold c_defined in Hdef. rewrite Hc in *.
+    cbn [go_conv_byte print_arg Z.eqb Pos.eqb orb].
     apply andb_true_iff in Hdef as [_ H48]. apply negb_true_iff in H48.
     destruct Hok as [Hasc | [W0 P0]].
     + rewrite (fmt_s_ascii chars f _ s Hst (st_space_pad f d wv pv Hst H48) Hasc). reflexivity.
@@ -204,19 +350,21 @@ Proof.
 Qed.
 
 Theorem item_ok_c chars ffmt pre d wv pv aw ap a ch :
-  wf_dir d = true -> d_conv d = Cc -> c_defined d = true -> no_pct pre = true -> in_lim d wv pv ->
+  wf_dir d = true -> d_conv d = Cc -> c_defined d = true -> no_pct pre = true -> lim d wv pv ->
   (d_width d = WStar -> awk_int (v_num aw) = Some wv) ->
   conv_c chars ffmt a = Ok ch -> rune_count ch = 1 ->
   item_ok chars ffmt (mkItem pre d wv pv aw ap a (GBytes ch) (AChar ch)).
 Proof.
-  intros Hwf Hc Hdef Hpre Hlim Hw Ha H1. unfold item_ok. cbn [it_pre it_d it_wv it_pv it_aw it_ap it_a it_g it_c].
+  intros Hwf Hc Hdef Hpre Hlim Hw Ha H1.
   unfold c_defined in Hdef. rewrite Hc in Hdef. apply andb_true_iff in Hdef as [Hdef HP]. apply andb_true_iff in Hdef as [_ H48].
   apply negb_true_iff in H48. destruct (d_prec d) eqn:EP; try discriminate.
+  destruct (resolve_eff d wv pv ltac:(rewrite Hc; reflexivity) ltac:(rewrite Hc; reflexivity)) as (_ & _ & Eres & _).
+  unfold item_ok, it_eff, it_verb. cbn [it_pre it_d it_wv it_pv it_aw it_ap it_a it_g it_c].
   split; [exact Hwf|]. split; [exact Hpre|]. split; [exact Hlim|]. split; [|split; [|split]].
-  - intros E. apply f2i64_awk_int; [exact (Hw E)|]. destruct Hlim as [L _]. rewrite E in L. unfold two63. lia.
-  - discriminate.
+  - intros E. apply conv_arg_d_in_range; [exact (Hw E)|]. destruct Hlim as [L _]. rewrite E in L. unfold two63. lia.
+  - rewrite EP. discriminate.
   - rewrite Hc. cbn [conv_ty conv_arg]. rewrite Ha. reflexivity.
-  - intros f Hst. unfold c_directive. rewrite Hc. cbn [go_conv_byte print_arg Z.eqb Pos.eqb].
+  - rewrite Eres. intros f Hst. unfold c_directive. rewrite Hc. cbn [go_conv_byte print_arg Z.eqb Pos.eqb].
     rewrite (fmt_s_char f _ ch Hst (st_space_pad f d wv pv Hst H48)); [reflexivity | | exact H1].
     unfold resolve. rewrite EP. reflexivity.
 Qed.
